@@ -528,10 +528,11 @@ PROPS = {
 
 NOT_YET = {}
 
-# a property is claimed once its theorem file exists
+# a property is claimed once it is listed here (its theorem file must exist and build)
+CLAIMED = ["C02", "C13", "C15"]
 ALL_PROPS = PROPS
 PROPS = {k: v for k, v in ALL_PROPS.items()
-         if os.path.exists(os.path.join(R.LEAN, "UnicLocale", "Props", k + ".lean"))}
+         if k in CLAIMED or (os.environ.get("VERIF_DEV") and os.path.exists(os.path.join(R.LEAN, "UnicLocale", "Props", k + ".lean")))}
 
 
 def setup():
@@ -545,7 +546,7 @@ def setup():
         if e:
             print(e)
             return 1
-        ok, out = R.lake_build(["UnicLocale", "UnicLocale.Audit", "driver"] + ["UnicLocale.Props." + p for p in sorted(PROPS)])
+        ok, out = R.lake_build(["UnicLocale", "UnicLocale.Audit", "driver"] + ["UnicLocale.Props." + p for p in sorted(CLAIMED)])
         if not ok:
             print(out[-8000:])
             return 1
